@@ -112,6 +112,95 @@ def known_class(p, ra, rb):
     return None
 
 
+# --------------------------------------------------------------------------- one process, changing definitions
+
+def seq_job(step, src=None, with_header=True):
+    j = dict(src=step["a"] if src is None else src, cert=FULL_CERT, namespace=step["namespace"])
+    if with_header:
+        j["header"] = step["header"]
+        if step["envs"]:
+            j["envs"] = step["envs"]
+    return j
+
+
+def run_sequence(jobs):
+    """compile the jobs in order in ONE process"""
+    return compile_batch(jobs, chunk=max(1, len(jobs)))
+
+
+def one_statement(step, key, hand=False):
+    a, b = step["statements"][key]
+    return K.PRE + "function t() {\n    " + (b if hand else a) + "\n}\n"
+
+
+def sequences(ck, rng, stats):
+    """Macro tables are process state: the same program text compiled after a compile with DIFFERENT definitions of the
+    same names must give ITS OWN hand expansion.  Returns (#steps, #failing steps)."""
+    seqs = NM.sequence_sets(rng, stats)
+    flat = [seq_job(st) for seq in seqs for st in seq]
+    L = max(len(seq) for seq in seqs)
+    # pad every sequence to the same length so that compile_batch's chunks are exactly the sequences
+    padded, index = [], []
+    for si, seq in enumerate(seqs):
+        for k in range(L):
+            padded.append(seq_job(seq[k]) if k < len(seq) else dict(src="", cert=FULL_CERT))
+            index.append((si, k) if k < len(seq) else None)
+    ra = compile_batch(padded, chunk=L)
+    hands = compile_batch([dict(src=st["b"], cert=FULL_CERT, namespace=st["namespace"]) for seq in seqs for st in seq], chunk=40)
+    hand_of, n = {}, 0
+    for si, seq in enumerate(seqs):
+        for k in range(len(seq)):
+            hand_of[(si, k)] = hands[n]
+            n += 1
+    failing = 0
+    reported = set()
+    for pos, r in zip(index, ra):
+        if pos is None:
+            continue
+        si, k = pos
+        st, hb = seqs[si][k], hand_of[pos]
+        if not hb["ok"] and not r["ok"]:
+            continue
+        if same_result(r, hb) and r["ok"] == hb["ok"]:
+            continue
+        failing += 1
+        if st["family"] in reported:
+            continue
+        reported.add(st["family"])
+        # minimise: (1) one predecessor + this step, (2) one statement
+        seq = seqs[si]
+        pre, stmt = list(range(k)), None
+        alone = run_sequence([seq_job(st)])[0]
+        if not same_result(alone, hb):
+            pre = []
+        else:
+            for j in range(k):
+                if not same_result(run_sequence([seq_job(seq[j]), seq_job(st)])[1], hb):
+                    pre = [j]
+                    break
+        for key in st["statements"]:
+            jobs = [seq_job(seq[j], one_statement(seq[j], key)) for j in pre] + [seq_job(st, one_statement(st, key))]
+            hb1 = run_sequence([dict(src=one_statement(st, key, hand=True), cert=FULL_CERT, namespace=st["namespace"])])[0]
+            if not same_result(run_sequence(jobs)[-1], hb1):
+                stmt = key
+                break
+        if stmt is not None:
+            seq_jobs = [seq_job(seq[j], one_statement(seq[j], stmt)) for j in pre] + [seq_job(st, one_statement(st, stmt))]
+            hand_job = dict(src=one_statement(st, stmt, hand=True), cert=FULL_CERT, namespace=st["namespace"])
+        else:
+            seq_jobs = [seq_job(seq[j]) for j in pre] + [seq_job(st)]
+            hand_job = dict(src=st["b"], cert=FULL_CERT, namespace=st["namespace"])
+        got, want = run_sequence(seq_jobs)[-1], run_sequence([hand_job])[0]
+        ck.violation(dict(
+            kind="macro-differs-from-hand-expansion-after-earlier-compile", family=st["family"], statement=stmt,
+            note="the jobs of `sequence` are compiled in order in ONE process; the LAST one must equal `hand_expanded`",
+            sequence=seq_jobs, with_macro=seq_jobs[-1], hand_expanded=hand_job, expected="identical virtual file maps",
+            actual=(dict(differing_files=file_diff(want["files"], got["files"])) if got["ok"] and want["ok"] else
+                    dict(with_macro=got.get("exc", "compiles"), hand_expanded=want.get("exc", "compiles"))),
+        ))
+    return sum(len(s) for s in seqs), failing
+
+
 # --------------------------------------------------------------------------- model tie
 
 USE_LINES = [
@@ -239,6 +328,11 @@ def main(tier: str) -> int:
                     if not (a["ok"] and b["ok"]) else dict(differing_files=file_diff(b["files"], a["files"]))),
         ))
 
+    # ---- the same program with changing definitions in one process
+    seq_stats = {}
+    seq_steps, seq_failing = sequences(ck, ck.rng, seq_stats)
+    viol_n += seq_failing
+
     # ---- model tie
     terms, raw = header_cases(ck.rng, tier, bool(probe["has_end"]), bool(probe["case_fix"]))
     bad, errs = eval_cases(PROP, HEADER16, terms, per_file=250, list_name="cases", checker="hmismatches")
@@ -266,7 +360,7 @@ def main(tier: str) -> int:
     for p in pairs:
         hist[p["use"]] = hist.get(p["use"], 0) + 1
     ck.cov.update(dict(
-        evaluations=len(pairs) + len(terms) + len(oterms),
+        evaluations=len(pairs) + len(terms) + len(oterms) + seq_steps,
         distinct_nontrivial=len({(p["a"], p["header"]) for p in pairs}),
         rule="metamorphic pair = (macro definition, use-site kind, left/right spacing 0-3): program with the macro + header vs "
              "hand-expanded program, file maps must be identical; left-alone pairs: same program with and without the header; "
@@ -275,6 +369,9 @@ def main(tier: str) -> int:
         differing_pairs=len(differing), known_pairs=known_n, disagreements_checked=len(differing),
         use_site_histogram=hist, programs=2 * len(pairs), relation_cases=rel_stats,
         selector_arguments_generated=selector_args, tree_variants=probe,
+        same_process_sequences=dict(seq_stats, failing_steps=seq_failing,
+                                    rule="each sequence = one program text compiled in ONE process under successive different "
+                                         "definitions of the same macro name (both orders); every step == its own hand expansion"),
         relation_pairs_valid={m: sum(1 for p, a, b in zip(pairs, ra, rb) if p["macro"] == m and (a["ok"] or b["ok"]))
                               for m in ("param-relations", "int-name-relations", "left-alone-relations")},
         model_tie=dict(header_token_cases=len(terms), mismatches=len(bad), model_declined=len(uns),
@@ -290,7 +387,14 @@ def replay(path: str) -> int:
         print("replay file has no input (correspondence/proof breakage): ", rp.get("kind"))
         print(json.dumps(rp, indent=1)[:3000])
         return 1
-    a, b = compile_batch([rp["with_macro"], rp["hand_expanded"]], chunk=1)
+    if rp.get("sequence"):
+        a = run_sequence(rp["sequence"])[-1]
+        b = compile_batch([rp["hand_expanded"]], chunk=1)[0]
+        print("compiled in one process, in this order:")
+        for j in rp["sequence"]:
+            print("  header: %r  envs: %r  namespace: %r" % (j.get("header"), j.get("envs"), j.get("namespace")))
+    else:
+        a, b = compile_batch([rp["with_macro"], rp["hand_expanded"]], chunk=1)
     print("header:\n%s\n--- with macro\n%s--- hand-expanded\n%s" % (rp["with_macro"].get("header"), rp["with_macro"]["src"],
                                                                    rp["hand_expanded"]["src"]))
     print("expected: identical outputs")
